@@ -326,6 +326,12 @@ func runFault(t *faultTask) *faultResult {
 			// dropped (non-strict journal/manifest) — only "nothing invented" is required
 			explain = onlyWritten
 		}
+		// batches passed to Write (failed or not) are still what the caller put into them
+		w.CheckHeldBatches()
+		if w.Failed() {
+			res.Viol = append(res.Viol, w.Viol...)
+			return
+		}
 		obs, unk, errs := readBack(w.DB)
 		{
 			// (with a flipped byte served by the storage only the point reads are judged; the
